@@ -111,10 +111,11 @@ struct leaf_sender
     {
         int payload, timing;
         std::decay_t<R> r;
-        void complete() noexcept
+        void complete(std::exception_ptr ep = nullptr) noexcept
         {
             if constexpr (Kind == 0) ex::set_value(std::move(r), tracked(payload));
-            else if constexpr (Kind == 1) ex::set_error(std::move(r), std::make_exception_ptr(term_error{payload}));
+            else if constexpr (Kind == 1)
+                ex::set_error(std::move(r), ep ? std::move(ep) : std::make_exception_ptr(term_error{payload}));
             else ex::set_stopped(std::move(r));
         }
         void start() & noexcept
@@ -125,6 +126,9 @@ struct leaf_sender
                 bool gated = !g_gate.load();
                 if (gated) ++g_expected;
                 g_helpers.add(std::thread([this, gated] {
+                    // everything that takes time is prepared before the rendezvous
+                    std::exception_ptr ep;
+                    if constexpr (Kind == 1) ep = std::make_exception_ptr(term_error{payload});
                     while (!g_gate.load()) {}
                     if (gated)
                     {
@@ -134,7 +138,7 @@ struct leaf_sender
                     }
                     for (int i = 0; i < (payload * 7919 + (int) (reinterpret_cast<std::uintptr_t>(this) >> 4)) % 48; ++i)
                         asm volatile("" ::: "memory");
-                    complete();
+                    complete(std::move(ep));
                 }));
             }
             else ex::execute(ex::thread_pool_scheduler{}, [this] { complete(); });
@@ -199,6 +203,7 @@ struct builder
     std::size_t pos = 0;
     vlog::rng* R;
     bool pool_bias = false;    // prefer completions from pool tasks (concurrent sibling completions)
+    bool align = false;        // all leaves complete from helper threads released together (rendezvous)
     std::string timings;
     std::string next() { return tok.at(pos++); }
     any_s build()
@@ -208,6 +213,7 @@ struct builder
         {
             int timing = (int) R->below(3);
             if (pool_bias && R->chance(1, 2)) timing = 2;
+            if (align) timing = 1;
             timings += char('0' + timing);
             if (op == "just") return any_s(leaf_sender<0>{std::stoi(next()), timing});
             if (op == "fail") return any_s(leaf_sender<1>{std::stoi(next()), timing});
@@ -291,6 +297,14 @@ struct builder
             return any_s(ex::when_all(std::move(a), std::move(b)) |
                 ex::then([](tracked x, tracked y) { return tracked(x.v + y.v); }));
         }
+        if (op == "when_all_vector")
+        {
+            std::vector<any_s> v;
+            v.push_back(build());
+            v.push_back(build());
+            return any_s(ex::when_all_vector(std::move(v)) |
+                ex::then([](std::vector<tracked> xs) { return tracked(xs[0].v + xs[1].v); }));
+        }
         throw std::runtime_error("bad term: " + op);
     }
 };
@@ -348,7 +362,8 @@ int main(int argc, char** argv)
             while (ls >> t) b.tok.push_back(t);
             b.R = &R;
             b.pool_bias = std::getenv("VERIF_POOL_BIAS") != nullptr;
-            bool gate = R.chance(1, 2);
+            b.align = std::getenv("VERIF_ALIGN") != nullptr;
+            bool gate = R.chance(1, 2) || std::getenv("VERIF_ALIGN") != nullptr;
             g_expected = 0;
             g_arrived = 0;
             g_gate = gate ? 0 : 1;
